@@ -403,8 +403,10 @@ fn completions_for_type(genv: &GlobalTypeEnv, ty: &tast::Ty) -> Vec<DotCompletio
                 }),
         );
     }
-    if let tast::Ty::TApp { ty: base_ty, .. } = ty {
-        let base_name = base_ty.get_constr_name_unsafe();
+    // the head of an application may be a type parameter (`x: T[int32]`): it has no constructor and no methods
+    if let tast::Ty::TApp { ty: base_ty, .. } = ty
+        && let Some(base_name) = type_constructor_name(base_ty).map(str::to_string)
+    {
         if let Some(impl_def) = genv
             .trait_env
             .inherent_impls
@@ -850,8 +852,9 @@ fn colon_colon_inherent_methods(
             }
         }));
     }
-    if let tast::Ty::TApp { ty, .. } = receiver_ty {
-        let base_name = ty.get_constr_name_unsafe();
+    if let tast::Ty::TApp { ty, .. } = receiver_ty
+        && let Some(base_name) = type_constructor_name(ty.as_ref()).map(str::to_string)
+    {
         if let Some(impl_def) = genv
             .trait_env
             .inherent_impls
